@@ -6,6 +6,7 @@ package main
 
 import (
 	"encoding/json"
+	"fmt"
 	"math/rand"
 	"strconv"
 	"sync"
@@ -406,13 +407,14 @@ func scenJSON(a []string) string {
 // (order, frag, reissue, flood-close, burst, late, dup, unknown, bad, never, mixed, attr, notmo, prejoin, wrap,
 // close-idle / -queued / -outstanding / -afterresp / -timer / -early, rst-outstanding, ...), RunW plays it on a
 // live server.  Their verdicts belong to C12/C13; here only the race detector judges.
-var slowKinds = map[string]bool{"stall": true, "stall-close": true, "default0": true}
+var slowKinds = map[string]bool{"stall": true, "stall-close": true, "default0": true, "wrap": true} // 5 s stalls, the 3 s default timeout, 65536 heartbeats: thorough tier only
 
 func runWKinds(seed int64, slow bool) string {
 	s := scenServer()
 	var wg sync.WaitGroup
 	var mu sync.Mutex
 	n, viol := 0, 0
+	durs := ""
 	for k, kind := range WKinds {
 		if slowKinds[kind] && !slow {
 			continue
@@ -420,13 +422,15 @@ func runWKinds(seed int64, slow bool) string {
 		wg.Add(1)
 		go func(k int, kind string) {
 			defer wg.Done()
+			t0 := time.Now()
 			h := RunW(s, GenW(kind, seed*100+int64(k)))
 			mu.Lock()
+			durs += fmt.Sprintf("%s:%d,", kind, time.Since(t0).Milliseconds())
 			n++
 			viol += len(h.Viol)
 			mu.Unlock()
 		}(k, kind)
 	}
 	wg.Wait()
-	return "{\"WKinds\":" + strconv.Itoa(n) + ",\"WViol\":" + strconv.Itoa(viol) + "}"
+	return "{\"WKinds\":" + strconv.Itoa(n) + ",\"WViol\":" + strconv.Itoa(viol) + ",\"Durs\":\"" + durs + "\"}"
 }
